@@ -349,7 +349,13 @@ impl Emitter {
                     Node::CaptureGroup { id, contents, name } => {
                         let group = *id;
                         self.result.groups += 1;
-                        self.group_names.push(name.as_deref().unwrap_or("").into());
+                        // Index names by group id: inside a lookbehind groups are emitted in
+                        // reverse order, so the emission order is not the group order.
+                        let idx = group as usize;
+                        if self.group_names.len() <= idx {
+                            self.group_names.resize(idx + 1, "".into());
+                        }
+                        self.group_names[idx] = name.as_deref().unwrap_or("").into();
                         self.emit_insn(Insn::BeginCaptureGroup(group));
                         stack.push(Emitter::EndCaptureGroup { group });
                         stack.push(Emitter::Node(contents));
